@@ -1,4 +1,5 @@
 import XC.Model.C08
+import XC.Model.C08_KeccakfGo
 namespace XC.C08
 
 def prefixBytes (k : Nat) : Bytes := (List.range k).map fun i => UInt8.ofNat (0xa0 + i)
@@ -56,7 +57,8 @@ def oneShot (fn : String) (m : Bytes) (k : Nat) : Option Bytes :=
   | "shake256" => some (shake256 m k)
   | _ => none
 
-/-- `sp fn= n= s= ops= src=` (history on a pool of objects, implementation-shaped model),
+/-- `regen status=` / `src file=keccakf` / `kf in=<200 bytes>` (generated Go-shaped permutation),
+    `sp fn= n= s= ops= src=` (history on a pool of objects, implementation-shaped model),
     `one fn= src= len=` (one-shot API, answered by the *specification* `spongeSpec`),
     `kat fn= n= s= src= len= want=` (published vector: `<spec output>|<spec output>`). -/
 def handle (line : String) : String :=
@@ -72,6 +74,21 @@ def handle (line : String) : String :=
         | none => "bad-op"
       | _, _ => "bad-op"
     | _, _, _, _ => "bad-op"
+  else if o.cmd == "regen" then "uptodate"          -- the generated model file must match the source
+  else if o.cmd == "src" then KGo.srcHash           -- sha256 of the statements the model was generated from
+  else if o.cmd == "kf" then                        -- keccakF1600 through the GENERATED Go-shaped model
+    match o.hex? "in" with
+    | some inp =>
+      if inp.length != 200 then "bad-op" else
+      let l := toLanes inp
+      let s : KGo.L25 := ⟨l.getD 0 0, l.getD 1 0, l.getD 2 0, l.getD 3 0, l.getD 4 0, l.getD 5 0, l.getD 6 0,
+        l.getD 7 0, l.getD 8 0, l.getD 9 0, l.getD 10 0, l.getD 11 0, l.getD 12 0, l.getD 13 0, l.getD 14 0,
+        l.getD 15 0, l.getD 16 0, l.getD 17 0, l.getD 18 0, l.getD 19 0, l.getD 20 0, l.getD 21 0, l.getD 22 0,
+        l.getD 23 0, l.getD 24 0⟩
+      let r := KGo.keccakfGo s
+      toHex ([r.a0, r.a1, r.a2, r.a3, r.a4, r.a5, r.a6, r.a7, r.a8, r.a9, r.a10, r.a11, r.a12, r.a13, r.a14,
+        r.a15, r.a16, r.a17, r.a18, r.a19, r.a20, r.a21, r.a22, r.a23, r.a24].flatMap u64le)
+    | none => "bad-op"
   else if o.cmd == "one" then
     match o.hex? "src", o.nat? "len" with
     | some src, some k =>
